@@ -48,6 +48,16 @@ func (gs GenesisState) Validate() error {
 	for _, b := range gs.OrderBookList {
 		oddsCount := 0
 		for _, be := range gs.OrderBookExposureList {
+			// only the odds of this book count, and they carry participation exposures
+			// only once somebody has deposited into the book
+			if be.OrderBookUID != b.UID {
+				continue
+			}
+			oddsCount++
+			if b.ParticipationCount == 0 {
+				continue
+			}
+
 			exposureFound := false
 			for _, pe := range gs.ParticipationExposureList {
 				if pe.OrderBookUID == b.UID && pe.OddsUID == be.OddsUID {
@@ -61,10 +71,6 @@ func (gs GenesisState) Validate() error {
 					be.OrderBookUID,
 					be.OddsUID,
 				)
-			}
-
-			if be.OrderBookUID == b.UID {
-				oddsCount++
 			}
 		}
 
